@@ -642,3 +642,65 @@ impl SwarmDriver {
         Ok(())
     }
 }
+
+/// Verification hooks (compiled only with `--cfg maidsafe_safe_network_verif`): pass-throughs that
+/// let the external /verif harness feed `NetworkSwarmCmd`s and synthetic `kad::Event`s to the real
+/// handlers, read `pending_get_record`, and call the split-record merge. Nothing here is used by
+/// the crate itself.
+#[cfg(maidsafe_safe_network_verif)]
+#[allow(clippy::type_complexity)]
+impl SwarmDriver {
+    pub fn verif_handle_kad_event(
+        &mut self,
+        kad_event: libp2p::kad::Event,
+    ) -> std::result::Result<(), NetworkError> {
+        self.handle_kad_event(kad_event)
+    }
+
+    pub fn verif_handle_network_cmd(
+        &mut self,
+        cmd: crate::cmd::NetworkSwarmCmd,
+    ) -> std::result::Result<(), NetworkError> {
+        self.handle_network_cmd(cmd)
+    }
+
+    /// Read-only copy of `pending_get_record`: per query its id, key, number of waiting senders,
+    /// the versions seen so far with their responders, and the configuration the query runs under.
+    pub fn verif_pending_get_record(
+        &self,
+    ) -> Vec<(
+        QueryId,
+        libp2p::kad::RecordKey,
+        usize,
+        Vec<(Record, Vec<libp2p::PeerId>)>,
+        GetRecordCfg,
+    )> {
+        self.pending_get_record
+            .iter()
+            .map(|(id, (key, senders, result_map, cfg))| {
+                (
+                    *id,
+                    key.clone(),
+                    senders.len(),
+                    result_map
+                        .values()
+                        .map(|(record, peers)| (record.clone(), peers.iter().copied().collect()))
+                        .collect(),
+                    cfg.clone(),
+                )
+            })
+            .collect()
+    }
+
+    pub fn verif_self_peer_id(&self) -> libp2p::PeerId {
+        self.self_peer_id
+    }
+
+    /// `Network::handle_split_record_error` (private to the crate root) on a caller-built map.
+    pub fn verif_handle_split_record_error(
+        result_map: &std::collections::HashMap<XorName, (Record, HashSet<libp2p::PeerId>)>,
+        key: &libp2p::kad::RecordKey,
+    ) -> std::result::Result<Option<Record>, NetworkError> {
+        crate::Network::handle_split_record_error(result_map, key)
+    }
+}
